@@ -282,6 +282,18 @@ fn fd_result(cfg: &Cfg) {
     } else {
         let h = w.future_desync(&q, "FD", body);
         match mode {
+            0 if cfg.opt("dep", 0) == 1 => {
+                // `dep`=1: an operation queued behind the awaited one blocks until the awaiting task has its result (it must be
+                // left to another runner, never run inside the poll that delivers the result)
+                let (w1, q1) = (w.clone(), q.clone());
+                let bg_dep = BGate::new();
+                w.desync(&q, "M-dep", Body::blocking(&bg_dep));
+                hs.push(spawn(move || {
+                    h.wait();
+                    bg_dep.open();
+                    w1.desync(&q1, "M-after", Body::plain());
+                }))
+            }
             0 => hs.push(spawn(move || h.wait())),
             1 => hs.push(spawn(move || h.sync())),
             2 => h.detach(),
